@@ -119,6 +119,37 @@ class Run:
             raise Inconclusive(f'exploration {name} did not finish within its time cap ({seconds}s)')
         return st
 
+    def cross_check(s, limit=150):
+        """re-decide the sampled queries with cvc5; any disagreement or solver error makes the run inconclusive"""
+        import glob
+        import subprocess
+        d = os.environ.get('VERIF_SMT_DUMP')
+        if not d:
+            return
+        files = sorted(glob.glob(os.path.join(d, '*.smt2')))
+        rnd = random.Random(s.seed)
+        rnd.shuffle(files)
+        files = files[:limit]
+        agree = 0
+        t0 = time.time()
+        for f in files:
+            want = 'unsat' if f.endswith('_unsat.smt2') else 'sat'
+            try:
+                p = subprocess.run(['cvc5', '--lang', 'smt2', f], capture_output=True, text=True, timeout=60)
+            except subprocess.TimeoutExpired:
+                raise Inconclusive('cvc5 timed out on ' + f)
+            out = (p.stdout + p.stderr).strip().splitlines()
+            got = out[0].strip() if out else ''
+            if '(error' in p.stdout + p.stderr or got not in ('sat', 'unsat'):
+                raise Inconclusive(f'cvc5 could not decide {f}: {(p.stdout + p.stderr)[:300]}')
+            if got != want:
+                raise Inconclusive(f'solvers disagree on {f}: z3 {want}, cvc5 {got}')
+            agree += 1
+        s.evidence['coverage']['second_solver'] = {'solver': 'cvc5', 'queries_rechecked': agree, 'disagreements': 0, 'wall_s': round(time.time() - t0, 1)}
+        s.log(f'[cross-check] cvc5 agrees with z3 on {agree} sampled queries ({time.time() - t0:.1f}s)')
+        for f in glob.glob(os.path.join(d, '*.smt2')):
+            os.remove(f)
+
     def native(s, cases, release=False):
         b = s.paths['vreplay_release'] if release else s.paths['vreplay']
         raw = run_native(cases, b)
@@ -163,8 +194,15 @@ def main(pid, tier, seed, replay=None):
             print('REPRODUCED' if ok else 'NOT REPRODUCED')
             run.pool.close()
             return 1 if ok else 0
+        if tier == 'thorough' and not os.environ.get('VERIF_SMT_DUMP'):
+            d = os.path.join(build.WORK, 'smt')
+            os.makedirs(d, exist_ok=True)
+            for f in os.listdir(d):
+                os.remove(os.path.join(d, f))
+            os.environ['VERIF_SMT_DUMP'] = d
         run.setup()
         result = mod.check(run)        # -> dict(violations=[...], exhaustive=bool)
+        run.cross_check()
         violations = result.get('violations', [])
         known = load_known(pid)
         real, known_hits = [], []
